@@ -100,7 +100,7 @@ func c26Seeds() []elfgen.File {
 
 func init() {
 	checks["C26"] = eng.Check{
-		Rule:        "the real mltwist binary (built from the working tree) run as a process with stdin=/dev/null under a 4 GiB address-space limit and a 300 s hang guard on: (a) ELF files with RISC-V payloads over {valid code, one instruction of every class, control transfers whose every outcome is the next instruction, undecodable word, truncated word, jump outside the code, misaligned jumps into the first / a middle / the last instruction of a block, entry at every 2-byte offset of the code and outside it, no executable section, no loadable segment, overlapping segments} x types; (b) every truncation length and every single-byte substitution {00, ff, ~b} of every header byte (ELF header, program headers, section headers) of two valid seed files (thorough: 20 substitute values for EVERY byte of the files); (c) memsz in {2^22, 2^30+1, 2^36, 2^62, 2^63, 2^64-1, 2^64-8} on a regular segment, on a segment without file bytes (alone / next to regular ones) and with the file size claimed equally large, section/segment addresses at the top of the address space; (d) argument vectors of length 0, 2, 3, a missing file, a directory, an empty file; plus the two seed files under a pseudo-terminal (UI must be entered and 'q' must exit 0). Oracle: exit status 1 with a 'mltwist: ' message (or UI entered), never a Go panic/fatal error, signal or timeout. Non-trivial = runs ending with the error exit.",
+		Rule:        "the real mltwist binary (built from the working tree) run as a process with stdin=/dev/null under a 4 GiB address-space limit and a 300 s hang guard on: (a) ELF files with RISC-V payloads over {valid code, one instruction of every class, control transfers whose every outcome is the next instruction, undecodable word, truncated word, jump outside the code, misaligned jumps into the first / a middle / the last instruction of a block, entry at every 2-byte offset of the code and outside it, no executable section, no loadable segment, overlapping segments} x types; (b) every truncation length and every single-byte substitution {00, ff, ~b} of every header byte (ELF header, program headers, section headers) of two valid seed files (thorough: 20 substitute values for EVERY byte of the files); (c) memsz in {2^22, 2^30+1, 2^36, 2^62, 2^63, 2^64-1, 2^64-8} on a regular segment, on a segment without file bytes (alone / next to regular ones) and with the file size claimed equally large, section/segment addresses at the top of the address space, two and three executable sections adjacent / near / 2^32 / 2^47 / 2^63 apart and at the top of the address space in both table orders; (d) argument vectors of length 0, 2, 3, a missing file, a directory, an empty file; plus the two seed files under a pseudo-terminal (UI must be entered and 'q' must exit 0). Oracle: exit status 1 with a 'mltwist: ' message (or UI entered), never a Go panic/fatal error, signal or timeout. Non-trivial = runs ending with the error exit.",
 		Assumptions: []string{"with stdin=/dev/null a file that loads ends in 'cannot get terminal size' (exit 1), which counts as a regular error exit; the pty runs confirm that valid files do enter the UI"},
 		Run: func(r *eng.Run) {
 			dir, err := os.MkdirTemp("", "vc26")
@@ -199,6 +199,24 @@ func init() {
 				t.Sections = []elfgen.Section{{Type: elfgen.SHT_PROGBITS, Flags: 6, Addr: ad, Data: code, Size: uint64(len(code))}}
 				t.Entry = ad
 				add(fmt.Sprintf("executable section at %#x", ad), "top", t.Bytes())
+			}
+			// several executable sections: adjacent, near, and far apart (the distance between
+			// sections is file-controlled and unrelated to the file's size), in both table orders
+			code2 := prog.Image([]uint32{prog.Addi(7, 0, 7), prog.Jal(0, 0)})
+			for _, far := range []uint64{0x1000 + uint64(len(s0.Sections[0].Data)), 0x2000, 1 << 32, 0x7ffff0000000, 0xffffffff80000000, 1 << 63, ^uint64(0) - 63} {
+				for order := 0; order < 2; order++ {
+					t := s0
+					second := elfgen.Section{Type: elfgen.SHT_PROGBITS, Flags: 6, Addr: far, Data: code2, Size: uint64(len(code2))}
+					t.Sections = []elfgen.Section{s0.Sections[0], second}
+					if order == 1 {
+						t.Sections = []elfgen.Section{second, s0.Sections[0]}
+					}
+					add(fmt.Sprintf("two executable sections, at 0x1000 and %#x (table order %d)", far, order), "sections", t.Bytes())
+				}
+				t3 := s0
+				t3.Sections = []elfgen.Section{s0.Sections[0], {Type: elfgen.SHT_PROGBITS, Flags: 6, Addr: far, Data: code2, Size: 8}, {Type: elfgen.SHT_PROGBITS, Flags: 6, Addr: far + 0x100, Data: code2, Size: 8}}
+				t3.Entry = far
+				add(fmt.Sprintf("three executable sections, at 0x1000, %#x and %#x, entry in the second", far, far+0x100), "sections", t3.Bytes())
 			}
 			// (b) truncations and byte substitutions of the seeds
 			for si, s := range seeds {
